@@ -993,7 +993,7 @@ func TestVerifC18(t *testing.T) {
 			jobs = append(jobs, "names/"+k.id+"/"+o.id)
 		}
 	}
-	jobs = append(jobs, "attrs/utf8", "attrs/legacy")
+	jobs = append(jobs, "attrs/utf8", "attrs/legacy", "units")
 	enum.Jobs(jobs, func(job string) {
 		r := enum.Start("C18", "names")
 		defer r.Finish()
@@ -1049,6 +1049,37 @@ func TestVerifC18(t *testing.T) {
 							continue
 						}
 						run.one(name, unit, kind, opt, legacy, c18MainSets)
+					}
+				}
+			}
+		case "units":
+			// "all units": every unit of the documented OTel -> Prometheus table (and a few outside it), names
+			// that do / do not already end in the unit word, every kind and option, both schemes
+			var all []string
+			for u := range refUnitWords {
+				all = append(all, u)
+			}
+			sort.Strings(all)
+			all = append(all, "", "unknown", "{packets}", "By/s", "KiBy/m")
+			r.Bound("units_all", all)
+			for _, unit := range all {
+				names := []string{"foo", "foo_" + refUnitWords[unit], "foo.total"}
+				for _, name := range names {
+					if strings.HasSuffix(name, "_") {
+						continue
+					}
+					for _, kind := range c18MainKinds {
+						for _, opt := range c18Opts {
+							for _, legacy := range []bool{false, true} {
+								if r.Expired() {
+									return
+								}
+								if !r.Want() {
+									continue
+								}
+								run.one(name, unit, kind, opt, legacy, c18MainSets)
+							}
+						}
 					}
 				}
 			}
